@@ -202,4 +202,125 @@ theorem appPD_meas_tab (t : Tab) (q : Nat) (o : Bool) (hq : q < t.n) (hv : t.Val
     rw [Hilbert.proj_Zq_hermitian] at hpsd2
     exact hpsd2.trace_eq_zero_iff.1 (by rw [Hilbert.trace_proj_sandwich t.n _ rfl]; exact h0)
 
+/-! ## every primitive, and every operation, refines the tableau API with Born weights -/
+
+/-- the tableau after the API call of a primitive (gates: the row map; measurement: `z_measurement_gate` with the recorded
+    outcome as the value used if the outcome is random) -/
+def apiP (t : Tab) : Tab.Op → Tab
+  | .meas q o => (t.zMeasure q o).1
+  | p => t.map (rowP p)
+
+/-- the Born weight of a primitive on the state of `t`: 1 for gates; for a recorded outcome its probability, 0 if it cannot occur -/
+noncomputable def weightP (t : Tab) : Tab.Op → ℂ
+  | .meas q o =>
+    if (t.zMeasure q o).2.1 = o then Matrix.trace (Hilbert.proj t.n (PRow.Zq q o) * Hilbert.tabRho t.n t) else 0
+  | _ => 1
+
+/-- the gate of a gate primitive -/
+theorem gatePrim_gate (n : Nat) (p : Tab.Op) (hg : isGatePrim p = true) (hok : primOk n p = true) :
+    ∃ g : Gate, g.WF n ∧ rowP p = g.act := by
+  cases p with
+  | h q => exact ⟨.H q, (show q < n by simpa [primOk] using hok), rfl⟩
+  | s q => exact ⟨.P q, (show q < n by simpa [primOk] using hok), rfl⟩
+  | sdg q => exact ⟨.Pdag q, (show q < n by simpa [primOk] using hok), rfl⟩
+  | x q => exact ⟨.X q, (show q < n by simpa [primOk] using hok), rfl⟩
+  | y q => exact ⟨.Y q, (show q < n by simpa [primOk] using hok), rfl⟩
+  | z q => exact ⟨.Z q, (show q < n by simpa [primOk] using hok), rfl⟩
+  | cnot c tg => exact ⟨.CNOT c tg, (show c < n ∧ tg < n ∧ c ≠ tg by simpa [primOk] using hok), rfl⟩
+  | cz c tg => exact ⟨.CZ c tg, (show c < n ∧ tg < n ∧ c ≠ tg by simpa [primOk] using hok), rfl⟩
+  | swap _ _ => cases hg
+  | meas _ _ => cases hg
+  | resetZ _ _ _ => cases hg
+  | resetX _ _ _ => cases hg
+  | resetY _ _ _ => cases hg
+  | insert _ => cases hg
+  | add => cases hg
+  | remove _ _ => cases hg
+  | ptrace _ _ => cases hg
+
+/-- a primitive that passes the assertions is a gate primitive or a measurement -/
+theorem primOk_cases (n : Nat) (p : Tab.Op) (hok : primOk n p = true) :
+    isGatePrim p = true ∨ ∃ q o, p = .meas q o ∧ q < n := by
+  cases p with
+  | meas q o => exact Or.inr ⟨q, o, rfl, by simpa [primOk] using hok⟩
+  | h _ => exact Or.inl rfl
+  | s _ => exact Or.inl rfl
+  | sdg _ => exact Or.inl rfl
+  | x _ => exact Or.inl rfl
+  | y _ => exact Or.inl rfl
+  | z _ => exact Or.inl rfl
+  | cnot _ _ => exact Or.inl rfl
+  | cz _ _ => exact Or.inl rfl
+  | swap _ _ => simp [primOk] at hok
+  | resetZ _ _ _ => simp [primOk] at hok
+  | resetX _ _ _ => simp [primOk] at hok
+  | resetY _ _ _ => simp [primOk] at hok
+  | insert _ => simp [primOk] at hok
+  | add => simp [primOk] at hok
+  | remove _ _ => simp [primOk] at hok
+  | ptrace _ _ => simp [primOk] at hok
+
+/-- **every primitive of the density-matrix semantics refines its tableau API call, with the Born weight** -/
+theorem appPD_api (t : Tab) (p : Tab.Op) (hok : primOk t.n p = true) (hv : t.Valid) (hr : t.StabReal) (c : ℂ) :
+    appPD t.n p (some (c • Hilbert.tabRho t.n t)) = some ((c * weightP t p) • Hilbert.tabRho t.n (apiP t p)) ∧
+    (apiP t p).Valid ∧ (apiP t p).StabReal ∧ (apiP t p).n = t.n := by
+  rcases primOk_cases t.n p hok with hg | ⟨q, o, rfl, hq⟩
+  · obtain ⟨g, hwf, hact⟩ := gatePrim_gate t.n p hg hok
+    have hapi : apiP t p = t.map (rowP p) := by cases p <;> first | rfl | cases hg
+    have hw : weightP t p = 1 := by cases p <;> first | rfl | cases hg
+    rw [hapi, hw, mul_one]
+    refine ⟨appPD_smul t.n p c _ _ (appPD_tab t p hg hok), ?_, ?_, rfl⟩
+    · rw [hact]; exact Tab.map_valid t _ (Gate.isAut t.n g hwf) hv
+    · rw [hact]; exact Hilbert.gate_stabReal t g hr
+  · refine ⟨?_, Tab.zMeasure_valid t q o hq hv, TabSpec.zMeasure_stabReal t q o hq hv hr, Tab.zMeasure_n t q o⟩
+    have h := appPD_smul t.n (.meas q o) c _ _ (appPD_meas_tab t q o hq hv hr)
+    rw [h, smul_smul]
+    rfl
+
+/-- the tableau and the weight after a list of primitives -/
+def apiPs : List Tab.Op → Tab → Tab
+  | [], t => t
+  | p :: l, t => apiPs l (apiP t p)
+
+noncomputable def weightPs : List Tab.Op → Tab → ℂ
+  | [], _ => 1
+  | p :: l, t => weightP t p * weightPs l (apiP t p)
+
+theorem runPD_api : ∀ (l : List Tab.Op) (t : Tab), (∀ p ∈ l, primOk t.n p = true) → t.Valid → t.StabReal → ∀ c : ℂ,
+    runPD t.n l (some (c • Hilbert.tabRho t.n t)) = some ((c * weightPs l t) • Hilbert.tabRho t.n (apiPs l t)) ∧
+    (apiPs l t).Valid ∧ (apiPs l t).StabReal ∧ (apiPs l t).n = t.n := by
+  intro l
+  induction l with
+  | nil => intro t _ hv hr c; exact ⟨by simp [runPD, weightPs, apiPs], hv, hr, rfl⟩
+  | cons p l ih =>
+    intro t hok hv hr c
+    obtain ⟨h1, hv1, hr1, hn1⟩ := appPD_api t p (hok p (by simp)) hv hr c
+    obtain ⟨h2, hv2, hr2, hn2⟩ := ih (apiP t p) (fun p' hp' => by rw [hn1]; exact hok p' (List.mem_cons_of_mem _ hp')) hv1 hr1
+      (c * weightP t p)
+    refine ⟨?_, hv2, hr2, hn2.trans hn1⟩
+    rw [runPD_cons, h1]
+    rw [hn1] at h2
+    rw [h2]
+    simp only [weightPs, apiPs, mul_assoc]
+
+/-- **every operation of the compile sequence, in the density-matrix semantics, refines the tableau API**: on `c · ρ(t)` it
+    returns `(c · w) · ρ(t')` with `t'` the tableau after the API calls of the operation (measurement with the recorded
+    outcome, classically controlled corrections, reset flip) and `w` the Born weight of the recorded outcome — provided the
+    compiler's assertions hold (`hok`) and an outcome is supplied -/
+theorem appD_api (ne np : Nat) (a : SOp) (d : Dec) (hd : decode ne np a = some d) (t : Tab) (hn : t.n = ne + np)
+    (hv : t.Valid) (hr : t.StabReal) (sc : Script) (hhas : d.has sc)
+    (hok : ∀ p ∈ d.prims (d.out sc), primOk (ne + np) p = true) (c : ℂ) :
+    appD ne np a (some (c • Hilbert.tabRho (ne + np) t, sc)) =
+      some ((c * weightPs (d.prims (d.out sc)) t) • Hilbert.tabRho (ne + np) (apiPs (d.prims (d.out sc)) t), d.pop sc) ∧
+    (apiPs (d.prims (d.out sc)) t).Valid ∧ (apiPs (d.prims (d.out sc)) t).StabReal ∧
+    (apiPs (d.prims (d.out sc)) t).n = ne + np := by
+  obtain ⟨h1, hv1, hr1, hn1⟩ := runPD_api (d.prims (d.out sc)) t (fun p hp => by rw [hn]; exact hok p hp) hv hr c
+  refine ⟨?_, hv1, hr1, hn1.trans hn⟩
+  have e := appD_map ne np a d hd (some (c • Hilbert.tabRho (ne + np) t)) sc
+  simp only [Option.map_some] at e
+  rw [e, if_pos hhas]
+  rw [hn] at h1
+  rw [h1]
+  rfl
+
 end Graphiq.Commute
